@@ -118,7 +118,7 @@ Proof.
     + destruct (negb (nip n =? ip)); reflexivity.
     + destruct (negb (want_node s id)); [reflexivity|].
       destruct (add_node_to_bucket _ _ _ _) as [t [|]|t|]; try reflexivity.
-      destruct (lookup id (tb t)) as [[k n]|]; reflexivity.
+      destruct (lookup id (tb _)) as [[k n]|]; reflexivity.
   - destruct (id =? own s); [reflexivity|]. unfold node_inactive.
     destruct (lookup id (tb (tab s))) as [[k n]|]; [|reflexivity]. destruct (negb (nip n =? ip)); [reflexivity|].
     destruct (lookup id _) as [[k' n1]|]; [|reflexivity].
@@ -360,7 +360,7 @@ Proof.
     + destruct (negb (nip n =? ip)); reflexivity.
     + destruct (negb (want_node s id)); [reflexivity|].
       destruct (add_node_to_bucket _ _ _ _) as [t [|]|t|]; try reflexivity.
-      destruct (lookup id (tb t)) as [[k n]|]; reflexivity.
+      destruct (lookup id (tb _)) as [[k n]|]; reflexivity.
   - destruct (id =? own s); [reflexivity|]. unfold node_inactive.
     destruct (lookup id (tb (tab s))) as [[k n]|]; [|reflexivity]. destruct (negb (nip n =? ip)); [reflexivity|].
     destruct (lookup id _) as [[k' n1]|]; [|reflexivity].
